@@ -209,6 +209,9 @@ pub fn eval(ctx: &Ctx, case: &Case) {
 }
 
 pub fn replay(ctx: &Arc<Ctx>, v: &Value) {
+    if crate::cold::replay(ctx, v) {
+        return;
+    }
     let c: Case = serde_json::from_value(v.clone()).expect("C17 case");
     eval(ctx, &c);
 }
@@ -279,4 +282,5 @@ pub fn run(ctx: &Arc<Ctx>) {
     ctx.sample(serde_json::to_value(&cases[cases.len() - 1]).unwrap());
     run_cases(ctx, &cases, 2, eval);
     // the GM/T 0044.5 exchange example (SK = C5C13A8F59A97CDEAE64F16A2272A9E7) is configuration 0; the reference reproduces it in its self-test
+    crate::cold::check(ctx, "C17");
 }
